@@ -522,6 +522,31 @@ func driveC19(c *driverCtx) error {
 			}
 			emitCS(c, "C19", fmt.Sprintf("C19|pointers|%s", shortSchema(sch)), s3, reflect.TypeOf(T3{}), v, true)
 		}
+		// times as the items of an array and the values of a map (whatever shortcut collections take for their
+		// items, the logical type still decides what is stored)
+		type TC struct {
+			L []time.Time          `json:"l"`
+			M map[string]time.Time `json:"m"`
+		}
+		sc := `{"type":"record","name":"TC","fields":[{"name":"l","type":{"type":"array","items":` + sch + `}},{"name":"m","type":{"type":"map","values":` + sch + `}}]}`
+		for k := 0; k < c.pick(20, 2000); k++ {
+			var tc TC
+			tc.M = map[string]time.Time{}
+			for n := c.rng.Intn(5); n > 0; n-- {
+				if t := genTimeFor(c.rng, sch, true); !t.IsZero() {
+					tc.L = append(tc.L, t)
+				}
+			}
+			for n := c.rng.Intn(3); n > 0; n-- {
+				if t := genTimeFor(c.rng, sch, true); !t.IsZero() {
+					tc.M[fmt.Sprintf("k%d", n)] = t
+				}
+			}
+			if len(tc.L) == 0 {
+				tc.L = []time.Time{}
+			}
+			emitCS(c, "C19", fmt.Sprintf("C19|collections|%s", shortSchema(sch)), sc, reflect.TypeOf(TC{}), reflect.ValueOf(tc), true)
+		}
 	}
 	return nil
 }
